@@ -427,7 +427,7 @@ type tcase struct {
 func corr(seed uint64, n int) {
 	r := newRunner(budget)
 	defer r.stop()
-	cs := walkerCases(seed, n)
+	cs := append(walkerCases(seed, n), seiCorrCases(seed+7, n)...)
 	r.batch(cs, func(i int, res result) {
 		c := cs[i]
 		if res.class == "skipped" {
